@@ -505,6 +505,200 @@ func runVerify(c *core.Ctx) {
 	}
 }
 
+// rangeRecordParser: v is the record a function of the module parsed from the Content-Range header (rng, err :=
+// parseRange(r.Header.Get("content-range"))): that function.
+func rangeRecordParser(c *core.Ctx, v ssa.Value) *ssa.Function {
+	x := an.Strip(v)
+	if ld, ok := x.(*ssa.UnOp); ok && ld.Op == token.MUL {
+		if whole := an.SingleStore(ld.X); whole != nil {
+			x = an.Strip(whole)
+		}
+	}
+	if _, isStruct := x.Type().Underlying().(*types.Struct); !isStruct {
+		return nil
+	}
+	pc, idx := an.CallOf(an.Origin(x))
+	if pc == nil || idx > 0 || len(pc.Call.Args) != 1 || !headerGet(pc.Call.Args[0], "content-range") {
+		return nil
+	}
+	h := pc.Call.StaticCallee()
+	if h == nil || len(h.Blocks) == 0 || core.FuncPkgPath(h) != c.P.Module {
+		return nil
+	}
+	return h
+}
+
+// rangeRecordProblem: "" when the pair (predicate, parser) is a sound range check.  The parser hands out, on its
+// non-error returns, either the zero record on the ‘header is empty’ edge or a record whose boolean field is true and
+// whose integer field is the result of strconv.ParseInt/Atoi on the ok-edge of that parse.  The predicate, evaluated
+// under ‘the boolean field is true’ and ‘integer field ≠ size’, is false on every return.
+func rangeRecordProblem(pred, parser *ssa.Function) string {
+	res := parser.Signature.Results()
+	if res.Len() != 2 || !an.IsErrorType(res.At(1).Type()) || len(parser.Params) != 1 {
+		return "the parser does not have the form (header) (record, error)"
+	}
+	rec, ok := res.At(0).Type().Underlying().(*types.Struct)
+	if !ok {
+		return "the parser does not return a record"
+	}
+	setF, startF := -1, -1
+	for i := 0; i < rec.NumFields(); i++ {
+		if bt, ok := rec.Field(i).Type().Underlying().(*types.Basic); ok {
+			switch {
+			case bt.Kind() == types.Bool:
+				setF = i
+			case bt.Info()&types.IsInteger != 0:
+				startF = i
+			}
+		}
+	}
+	if setF < 0 || startF < 0 {
+		return "the record does not hold a ‘range given’ flag and a start position"
+	}
+	hdr := parser.Params[0]
+	why := ""
+	an.Instrs(parser, func(in ssa.Instruction) {
+		ret, isRet := in.(*ssa.Return)
+		if !isRet || len(ret.Results) != 2 || why != "" {
+			return
+		}
+		if an.DefiniteError(ret.Results[1]) || an.ReturnNonNilGuarded(ret, ret.Results[1]) {
+			return
+		}
+		ss := structStores(an.Origin(ret.Results[0]))
+		if len(ss) == 0 {
+			if u, ok := an.Strip(ret.Results[0]).(*ssa.UnOp); ok {
+				ss = structStores(u.X)
+			}
+		}
+		setVals := ss[rec.Field(setF).Name()]
+		given := false
+		for _, sv := range setVals {
+			if b, isC := an.ConstBool(sv); !isC || !b {
+				why = "the ‘range given’ flag is not a constant"
+				return
+			}
+			given = true
+		}
+		if !given {
+			// ‘no range’: only for an empty header
+			if len(ss) > 0 && len(ss[rec.Field(startF).Name()]) > 0 {
+				why = "a record without the flag carries a start position"
+				return
+			}
+			if len(ss) == 0 && !isZeroStruct(ret.Results[0]) {
+				why = "a returned record could not be read"
+				return
+			}
+			onEmpty := false
+			for _, g := range an.GuardingEdges(ret.Block()) {
+				x, y, op, isCmp := an.CmpTest(g.If())
+				if !isCmp {
+					continue
+				}
+				for _, pr := range [][2]ssa.Value{{x, y}, {y, x}} {
+					if an.Origin(pr[0]) == ssa.Value(hdr) {
+						if s0, isS := an.ConstString(pr[1]); isS && s0 == "" && ((op == token.EQL && g.Succ == 0) || (op == token.NEQ && g.Succ == 1)) {
+							onEmpty = true
+						}
+					}
+				}
+			}
+			if !onEmpty {
+				why = "‘no range’ is handed out for a header that is not empty (a malformed range would be taken for none)"
+			}
+			return
+		}
+		// the start: the parsed integer, on the ok-edge of the parse
+		starts := ss[rec.Field(startF).Name()]
+		if len(starts) != 1 {
+			why = "the start position of a returned record could not be read"
+			return
+		}
+		pc, idx := an.CallOf(an.Origin(starts[0]))
+		if pc == nil || idx != 0 || !(an.IsFunc(pc, "strconv", "ParseInt") || an.IsFunc(pc, "strconv", "ParseUint") || an.IsFunc(pc, "strconv", "Atoi")) {
+			why = "the start position is not the result of a strconv parse"
+			return
+		}
+		perr := an.ErrResult(pc)
+		okEdge := false
+		for _, g := range an.GuardingEdges(ret.Block()) {
+			if x, nilSucc, isNil := an.NilTest(g.If()); isNil && g.Succ == nilSucc && perr != nil {
+				for _, o := range append([]ssa.Value{x}, an.Origins(x)...) {
+					if o == perr {
+						okEdge = true
+					}
+				}
+			}
+		}
+		if !okEdge {
+			why = "the start position is handed out without the ok-edge of its parse"
+		}
+	})
+	if why != "" {
+		return why
+	}
+	// the predicate
+	if pred.Signature.Results().Len() != 1 {
+		return "the predicate does not return one boolean"
+	}
+	var sizeParam *ssa.Parameter
+	var recParam *ssa.Parameter
+	for _, p := range pred.Params {
+		if bt, ok := p.Type().Underlying().(*types.Basic); ok && bt.Info()&types.IsInteger != 0 {
+			sizeParam = p
+		}
+		if types.Identical(an.Deref(p.Type()).Underlying(), rec) {
+			recParam = p
+		}
+	}
+	if sizeParam == nil || recParam == nil {
+		return "the predicate does not take (record, size)"
+	}
+	isField := func(v ssa.Value, f int) bool {
+		switch x := an.Strip(v).(type) {
+		case *ssa.Field:
+			return x.Field == f && an.Origin(x.X) == ssa.Value(recParam)
+		case *ssa.UnOp:
+			if fa, ok := x.X.(*ssa.FieldAddr); ok && x.Op == token.MUL && fa.Field == f {
+				if fa.X == ssa.Value(recParam) {
+					return true
+				}
+				if al, ok := fa.X.(*ssa.Alloc); ok {
+					return an.SingleStore(al) == ssa.Value(recParam)
+				}
+			}
+		}
+		return false
+	}
+	an.Instrs(pred, func(in ssa.Instruction) {
+		ret, isRet := in.(*ssa.Return)
+		if !isRet || len(ret.Results) != 1 || why != "" {
+			return
+		}
+		v, known := evalAssumingLeaf(ret.Results[0], func(bo *ssa.BinOp) (bool, bool) {
+			if bo.Op != token.EQL && bo.Op != token.NEQ {
+				return false, false
+			}
+			for _, pr := range [][2]ssa.Value{{bo.X, bo.Y}, {bo.Y, bo.X}} {
+				if isField(pr[0], startF) && an.Origin(pr[1]) == ssa.Value(sizeParam) {
+					return bo.Op == token.NEQ, true // assume start ≠ size
+				}
+			}
+			return false, false
+		}, func(leaf ssa.Value) (bool, bool) {
+			if isField(leaf, setF) {
+				return true, true // assume a range was given
+			}
+			return false, false
+		}, 0)
+		if !known || v {
+			why = "the predicate can accept a range whose start differs from the size"
+		}
+	})
+	return why
+}
+
 // startEqSize: the comparison is ‘integer parsed from a string == the size parameter’.
 func startEqSize(v *ssa.BinOp, sizeParam *ssa.Parameter) bool {
 	if v.Op != token.EQL {
@@ -732,6 +926,7 @@ func runRange(c *core.Ctx) {
 		return
 	}
 	checkers := map[*ssa.Function]bool{}
+	recordCheckers := map[[2]*ssa.Function]bool{} // (predicate on the parsed record, parser of the header)
 	for _, fn := range serverFuncs(c) {
 		n := 0
 		an.Calls(fn, func(call ssa.CallInstruction) {
@@ -754,7 +949,7 @@ func runRange(c *core.Ctx) {
 			for _, g := range an.GuardingEdges(call.Block()) {
 				ifi := g.If()
 				if bc, trueSucc, ok := an.BoolCallTest(ifi); ok && g.Succ == trueSucc {
-					hasHdr, hasSize := false, false
+					hasHdr, hasSize, viaRecord := false, false, false
 					for _, a := range bc.Call.Args {
 						if headerGet(a, "content-range") {
 							hasHdr = true
@@ -762,10 +957,14 @@ func runRange(c *core.Ctx) {
 						if isSizeOf(r, a, sess) {
 							hasSize = true
 						}
+						if parser := rangeRecordParser(c, a); parser != nil && bc.Call.StaticCallee() != nil {
+							hasHdr, viaRecord = true, true
+							recordCheckers[[2]*ssa.Function{bc.Call.StaticCallee(), parser}] = true
+						}
 					}
 					if hasHdr && hasSize {
 						rangeOK = true
-						if callee := bc.Call.StaticCallee(); callee != nil {
+						if callee := bc.Call.StaticCallee(); callee != nil && !viaRecord {
 							checkers[callee] = true
 						}
 					}
@@ -814,7 +1013,7 @@ func runRange(c *core.Ctx) {
 						}
 					}
 					if bc, trueSucc, ok := an.BoolCallTest(fe.If()); ok && fe.Succ == trueSucc {
-						hasHdr, hasSize := false, false
+						hasHdr, hasSize, viaRecord := false, false, false
 						for _, a := range bc.Call.Args {
 							if headerGet(a, "content-range") {
 								hasHdr = true
@@ -822,10 +1021,15 @@ func runRange(c *core.Ctx) {
 							if sizeOfSess(a) {
 								hasSize = true
 							}
+							// the header parsed into a small record first (rng, err := parseRange(header); rng.follows(size))
+							if parser := rangeRecordParser(c, a); parser != nil && bc.Call.StaticCallee() != nil {
+								hasHdr, viaRecord = true, true
+								recordCheckers[[2]*ssa.Function{bc.Call.StaticCallee(), parser}] = true
+							}
 						}
 						if hasHdr && hasSize {
 							rangeOK = true
-							if callee := bc.Call.StaticCallee(); callee != nil {
+							if callee := bc.Call.StaticCallee(); callee != nil && !viaRecord {
 								checkers[callee] = true
 							}
 						}
@@ -841,6 +1045,15 @@ func runRange(c *core.Ctx) {
 				c.Pass(key, call.Pos(), "dominated by the Content-Range check and by state offset == Size()")
 			}
 		})
+	}
+	for pair := range recordCheckers {
+		pred, parser := pair[0], pair[1]
+		key := "checker:" + kn(c.P.FuncName(pred)) + "+" + kn(c.P.FuncName(parser))
+		if why := rangeRecordProblem(pred, parser); why != "" {
+			c.Fail(key, pred.Pos(), "the range check made of %s and %s is not sound: %s — an out-of-order chunk would be appended", c.P.FuncName(parser), c.P.FuncName(pred), why)
+		} else {
+			c.Pass(key, pred.Pos(), "%s hands out ‘no range’ only for an empty header and the parsed start otherwise; %s accepts only ‘no range’ or start == size", c.P.FuncName(parser), c.P.FuncName(pred))
+		}
 	}
 	for fn := range checkers {
 		key := "checker:" + kn(c.P.FuncName(fn))
